@@ -641,7 +641,7 @@ class Analysis:
             if a.kind == 'sink' and a.root is not None:
                 by_root[tuple(a.root)].append(a)
         for key, m in sorted(self.emits.items()):
-            if m.status != 'ok':
+            if m.status != 'ok' or not self.emits_wait(m.entry):
                 continue
             for a in by_root.get(key, []):
                 if a.seq < m.done and (a.end is None or a.end > m.done):
@@ -654,6 +654,8 @@ class Analysis:
 
     def check_stuck(self):
         V = []
+        if not any(self.emits_wait(m.entry) for m in self.emits.values()):
+            return V
         if not self.quiescent:
             if self.res.status in ('deadlock', 'livelock'):
                 pend = [m for m in self.emits.values() if m.done is None]
@@ -690,6 +692,36 @@ class Analysis:
                 return True
         return False
 
+    def component_of(self, nid):
+        """nodes connected to nid (streamz binds loops per connected pipeline)"""
+        adj = defaultdict(set)
+        for n in self.sc['graph']:
+            for u in n.get('up', []):
+                adj[u].add(n['id'])
+                adj[n['id']].add(u)
+        seen, todo = set(), [nid]
+        while todo:
+            x = todo.pop()
+            if x in seen:
+                continue
+            seen.add(x)
+            todo.extend(adj[x])
+        return seen
+
+    def emits_wait(self, entry=None):
+        """do emits at this entry point wait for downstream at all (its pipeline has a loop)?"""
+        mode = self.sc.get('mode')
+        if mode == 'loopless':
+            return False
+        if mode == 'threaded':
+            from .build import needs_loop
+            nodes = [n for n in self.sc['graph'] if n['op'] != 'sink']
+            if entry is not None:
+                comp = self.component_of(entry)
+                nodes = [n for n in nodes if n['id'] in comp]
+            return needs_loop(nodes)
+        return True
+
     def serial_input(self, nid):
         """True if everything reaching nid comes from one awaiting producer through
         one-in/at-most-one-out synchronous nodes (so the documented bound applies)."""
@@ -700,7 +732,7 @@ class Analysis:
             ups = cur.get('up', [])
             if cur['op'] == 'source':
                 ps = [p for p in self.sc['producers'] if p['entry'] == cur['id']]
-                return len(ps) == 1 and ps[0].get('await', True) and self.sc.get('mode') != 'loopless'
+                return len(ps) == 1 and ps[0].get('await', True) and self.emits_wait(cur['id'])
             if len(ups) != 1:
                 return False
             cur = self.spec[ups[0]]
@@ -711,6 +743,8 @@ class Analysis:
         """accepted (the awaitable handed back by update is done) minus handed on"""
         V = []
         ctx = self.res.ctx
+        if getattr(getattr(self.res, 'rec', None), 'overloaded', False):
+            return V
         for nid in self.order:
             n = self.spec[nid]
             op = n['op']
@@ -776,7 +810,7 @@ class Analysis:
                 return False
             if cur['op'] == 'source':
                 ps = [p for p in self.sc['producers'] if p['entry'] == cur['id']]
-                if not (len(ps) == 1 and ps[0].get('await', True) and self.sc.get('mode') != 'loopless'):
+                if not (len(ps) == 1 and ps[0].get('await', True) and self.emits_wait(cur['id'])):
                     return False
                 # the source must feed this zip through this port only
                 return True
